@@ -501,6 +501,7 @@ func fragHist(g *Gen, n int, o *Out) {
 			}
 		}
 	}
+	shapeShiftHistory(g, o, n)
 	for i := 0; i < n; i++ {
 		// one evaluator, a history of data
 		proto, root, paths := datumAndPaths(g, "bexpr")
